@@ -332,11 +332,12 @@ SEM_TRUST = COMMON_TRUST + [
     'execution is by the compiled Lean interpreter (no wasm engine exists in the sandbox); validity of instrumented modules is wasmparser\'s verdict per generated case, not a theorem',
     'modelled, not verified: the token <-> instruction parser of the driver (parseOp / kindOfTok), the placement equivalence tree-model = code outside the tree scope (before-code on instruction 0 together with function-level probes; >= 3 flagged bodies at one end; branches to the function label or to loops) where the flat model M3 (tied to the code by the lower family) is printed instead',
 ]
-def sem_prop(title, files, level_text, technique):
+def sem_prop(title, files, level_text, technique, with_lower=False):
     return {
         'title': title, 'props_files': files,
-        'families': [{'name': 'sem', 'quick_n': 2500, 'thorough_n': 250000}],
-        'rule': SEM_RULE, 'trusted': SEM_TRUST,
+        'families': [{'name': 'sem', 'quick_n': 2500, 'thorough_n': 250000}] + ([{'name': 'lower', 'quick_n': 1500, 'thorough_n': 100000}] if with_lower else []),
+        'rule': SEM_RULE + (' Also the injection plans of the `lower` family (every mode incl. block alternates, clear_instr_at, three API paths, flat model M3): a probe of this property\'s mode that is accepted and not in the encoded function is a violation.' if with_lower else ''),
+        'trusted': SEM_TRUST,
         'assumptions': ['terminating executions only (the theorems quantify over runs that finish with some fuel)', 'activations start with an empty operand stack'],
         'design_ref': 'DESIGN.md section 6', 'level_text': level_text, 'technique': technique,
     }
@@ -348,19 +349,19 @@ PROPS['C16'] = sem_prop('Instrumentation with neutral probes preserves program b
 PROPS['C17'] = sem_prop('Function entry/exit probes fire once per call on every normal path', ['Orca/Props/C17.lean'],
     'Lean 4 theorem lowerF_sim: entry probes, wrapper block, exit probes and the copies in front of return / unreachable reproduce the monitored activation exactly (fall-through, return, branch to the function label from any depth, unreachable), results unchanged; '
     'for all bodies without semantic-after on branches. Tied to the code by the sem family.',
-    'Lean 4 proof (function-level simulation) + differential correspondence and execution in the Lean interpreter')
+    'Lean 4 proof (function-level simulation) + differential correspondence and execution in the Lean interpreter', with_lower=True)
 PROPS['C18'] = sem_prop('Block entry probes fire on every entry into the block', ['Orca/Props/C18.lean'],
     'Lean 4 theorem: the lowered program reproduces the monitored trace, in which entry probes fire at every entry of a block / loop iteration / if arm and nowhere else; all programs without semantic-after on branches.',
-    'Lean 4 proof (simulation by induction on fuel) + differential correspondence and execution in the Lean interpreter')
+    'Lean 4 proof (simulation by induction on fuel) + differential correspondence and execution in the Lean interpreter', with_lower=True)
 PROPS['C19'] = sem_prop('Block exit probes fire when the block or arm falls through', ['Orca/Props/C19.lean'],
     'Lean 4 theorem: the lowered program reproduces the monitored trace, in which exit probes fire exactly when the body / arm falls through; after the repair of F13 the placement for `if` is the arm\'s own else/end for arbitrarily nested arms.',
-    'Lean 4 proof (simulation by induction on fuel) + differential correspondence and execution in the Lean interpreter')
+    'Lean 4 proof (simulation by induction on fuel) + differential correspondence and execution in the Lean interpreter', with_lower=True)
 PROPS['C20'] = sem_prop('Semantic-after probes fire exactly once after the instruction', ['Orca/Props/C20.lean'],
     'PARTIAL. Lean 4: full theorem for semantic-after on block / if / else (fall-through and branch to the label). For branches the code\'s flag scheme (a flag local per annotated branch, 1 before / 0 after, a chain of checks behind '
     'the target\'s end, never cleared) is modelled and proved to reproduce the monitored outcome and trace on its scope - annotations on br / br_if, no loop contains the target of an annotated branch, no annotated branch to the '
     'function label, distinct flag locals untouched by the program and 0 on entry - for every program, nesting and terminating execution in the scope, up to the flag locals (c20_branch_partial, c20_function_partial: simulation with an '
     'inductive flag invariant). Outside the scope the statement is false of the code in two recorded ways, each decided in the kernel on a concrete program and reproduced on the crate by the sem family: F14 (flag never cleared: '
     'br_table with two targets, targets in loops) and F15 (function label).',
-    'Lean 4 proof (constructs: simulation; branches: simulation up to flag locals with an inductive invariant, on the stated scope) + kernel-decided counterexamples outside the scope + differential correspondence and execution in the Lean interpreter')
+    'Lean 4 proof (constructs: simulation; branches: simulation up to flag locals with an inductive invariant, on the stated scope) + kernel-decided counterexamples outside the scope + differential correspondence and execution in the Lean interpreter', with_lower=True)
 
 ALL_IDS = ['C%02d' % i for i in range(1, 31)]
